@@ -129,6 +129,16 @@ pub fn libs() -> Vec<Lib> {
             ]),
             ties: &["shared-target", "duplicate-titles", "equal-ranks", "identical-paths"],
         },
+        Lib {
+            name: "two-parents",
+            notes: own(&[
+                ("p", "# Beta\n\n[Alpha](x)\n"),
+                ("q", "# Gamma\n\n[Alpha](x)\n\n## Sub\n\n[Alpha](x)\n"),
+                ("x", "# Alpha\n\n## Inner\n\ntext\n"),
+                ("z", "# Zeta\n\nsee [Alpha](x)\n"),
+            ]),
+            ties: &["shared-target", "equal-ranks"],
+        },
         Lib { name: "wide", notes: wide_notes(), ties: &["wide", "duplicate-titles", "equal-ranks", "shared-target"] },
         // only used by the fs dimension: two FILES that liwe::fs maps to the same key
         Lib {
@@ -143,9 +153,9 @@ fn lib_named(name: &str) -> Option<Lib> {
     libs().into_iter().find(|l| l.name == name)
 }
 
-const PERM_LIBS: &[&str] = &["dup-titles", "twin-links", "cycle", "subdirs", "shared"];
-const POOL_LIBS: &[&str] = &["dup-titles", "twin-links", "cycle", "subdirs", "shared", "wide"];
-const FS_LIBS: &[&str] = &["dup-titles", "twin-links", "cycle", "subdirs", "shared", "md-md"];
+const PERM_LIBS: &[&str] = &["dup-titles", "twin-links", "cycle", "subdirs", "shared", "two-parents"];
+const POOL_LIBS: &[&str] = &["dup-titles", "twin-links", "cycle", "subdirs", "shared", "two-parents", "wide"];
+const FS_LIBS: &[&str] = &["dup-titles", "twin-links", "cycle", "subdirs", "shared", "two-parents", "md-md"];
 
 fn state_of(lib: &Lib) -> HashMap<String, String> {
     // a fresh HashMap (fresh RandomState) every time
